@@ -533,6 +533,10 @@ func (x *X) ufS(name string, res Sort, args ...Term) Term {
 			s += string(a.Sort)
 		}
 		x.vc.decl(fmt.Sprintf("(declare-fun %s (%s) %s)", name, s, res))
+		// what the function answers on the string constants seen so far
+		for _, lit := range sortedKeys(x.enc.strLits) {
+			x.enc.literalFacts(name, x.enc.strLits[lit], lit)
+		}
 	}
 	return app(res, name, args...)
 }
